@@ -9,6 +9,19 @@ NamesT   == {"a", "b", "c"}
 ScriptsQ == {<<"x">>, <<"x", "y">>}
 ScriptsT == {<<>>, <<"x">>, <<"x", "y">>}
 
+(* A family the exhaustive configurations are too small for: FOUR blocks over three names (so some name is always
+   sent at least twice), every block with its own two-line script (the order of the blocks shows in the output), up to
+   two dependencies each on the other names.  Dup4Sorted: dependency lists sorted and without repetition
+   (12^4 = 20 736 lists); Dup4All: every dependency sequence of length <= 2 (21^4 = 194 481).                  *)
+NScript(n) == <<n \o "1", n \o "2">>
+OthersOf(n) == NamesT \ {n}
+SortedDeps(n) == {<<>>} \cup {<<d>> : d \in OthersOf(n)}
+                 \cup {s \in [1..2 -> OthersOf(n)] : s[1] \in {"a", "b"} /\ s[2] \in {"b", "c"} /\ s[1] # s[2]}
+AllDeps(n) == UNION {[1..len -> OthersOf(n)] : len \in 0..2}
+NBlocks(D(_)) == UNION {{[name |-> n, script |-> NScript(n), deps |-> d] : d \in D(n)} : n \in NamesT}
+Dup4Sorted == [1..4 -> NBlocks(SortedDeps)]
+Dup4All == [1..4 -> NBlocks(AllDeps)]
+
 ExportFile == IF "OUT_FILE" \in DOMAIN IOEnv THEN IOEnv.OUT_FILE ELSE ""
 ASSUME ExportFile = "" \/ JsonSerialize(ExportFile, SetToSeq(BlockLists))
 =============================================================================
